@@ -4643,6 +4643,7 @@ class ResponseFuture(object):
                 # the caller's callback gets the connection this message is really sent on
                 # (and its pool), so that it hands back exactly what was borrowed here
                 cb = partial(cb, connection, pool)
+            cb = partial(self._answered, connection, request_id, cb)
 
             self.request_encoded_size = connection.send_msg(message, request_id, cb=cb,
                                                             encoder=self._protocol_handler.encode_message,
@@ -4748,6 +4749,16 @@ class ResponseFuture(object):
         self._start_time = time.time()
         self._start_timer()
         self.send_request()
+
+    def _answered(self, connection, request_id, cb, response):
+        # Once the answer is being processed the connection has already put the stream id
+        # back into circulation: this future does not own it any more.  Forget it, so that a
+        # client timeout firing later (the retry / re-prepare this answer leads to may still
+        # be waiting on the executor) cannot withdraw and orphan a request that ANOTHER
+        # statement has meanwhile sent on the recycled id.
+        if self._connection is connection and self._req_id == request_id:
+            self._req_id = None
+        cb(response)
 
     def _submit(self, fn, *args, **kwargs):
         """
